@@ -26,14 +26,29 @@ What is proved here (all for *every* input, no bound on sizes):
 * `word_level_macros_agree`, `wordFits_int32/64` — the `(TT)`/`(Rep)` conversions are the identity on the macros' intermediates.
 * `gfqext_defensive_init_counterexample` / `_partial` — known finding C05-gfqext-defensive-init.
 
-Not proved (see the report): that `(ZMod p)[X] ⧸ (f)` is a field / `f` irreducible / the decoding is onto
-(`valid_implies_field`), and that the constructor's loop always produces valid tables (`construction_valid`).
+* `valid_implies_field`, `gfq_refinement`, `zech_exact_for_field_generator` — accepted tables describe a field: `p` prime, `f`
+  irreducible, `(ZMod p)[X] ⧸ (f)` a field with `p^k` elements, decoding a bijection onto it, the generator generates the units, every
+  operation is the field operation; and the abstract form for any finite field with a generator.
+* `construction_valid`, `construction_valid_prime`, `lowest_prim_root_post`, `prime_field_constructor_valid` — the constructors' table
+  fill (and, for `k = 1`, the generator search) as written yield valid tables.
+* `init_from_polynomial_exact` — `GFqDom::init(Rep&, const Vector&)` for every degree.
+* `extension_ops_exact`, `extension_reduced_bijection` — `Extension<>` is `R[X] ⧸ (f)`.
+* `kronecker_state_invariant`, `kronecker_substitution_exact`, `kronecker_convert_injective`, `kronecker_pinned_counterexample` —
+  GFqKronecker's shift/mask state machine and the exactness of Kronecker substitution for dot products of at most `maxn` terms.
+
+Hypotheses that are other properties' contracts: the search for the irreducible / primitive polynomial (C09), `phi` and the
+factorisation inside `lowest_prim_root` (C13/C12), the laws of the `Poly1Dom` operations (C08).
 -/
 import GivaroModel.Lemmas.GFqOps
 import GivaroModel.Lemmas.GFqTables
 import GivaroModel.Lemmas.GFqDecoding
 import GivaroModel.Lemmas.GFqAdjoinRoot
 import GivaroModel.Lemmas.GFqWord
+import GivaroModel.Lemmas.GFqField
+import GivaroModel.Lemmas.GFqCtor
+import GivaroModel.Lemmas.GFqKron
+import GivaroModel.Lemmas.GFqInit
+import GivaroModel.Lemmas.GFqExtension
 import GivaroModel.Model.GFqExt
 import Mathlib.Algebra.BigOperators.Group.Finset.Basic
 import Mathlib.Algebra.BigOperators.Intervals
@@ -381,6 +396,136 @@ theorem tablesValid_sound_adjoinRoot (T : Tables) [Fact (Nat.Prime T.F.p)] (hv :
       (fun i => AdjoinRoot.mk (modulus T.F) (toPoly T.F.p (digits T.F.p T.F.k (T.l2p i.toNat)))) :=
   Givaro.Lemmas.GFqZech.tablesValid_gives_ZechHyp T hv (decoding_adjoinRoot T.F hk)
 
+/-- **valid_implies_field** (for every `p`, `k` and every table — not per object): if the checker accepts the tables then `p` is
+    prime, the reported polynomial `f = X^k + flow` is irreducible over `ZMod p`, `K = (ZMod p)[X] ⧸ (f)` is a field with `p^k`
+    elements, decoding (index `i` ↦ class of the polynomial with p-adic digits `log2pol[i]`) is a bijection from the canonical
+    indices `[0, q)` onto `K`, the advertised generator `γ = dec (log2pol 1)` generates `Kˣ` (every non-zero element is `γ^i`,
+    `1 ≤ i ≤ q-1`), and the tables satisfy `ZechHyp` in `K`. -/
+theorem valid_implies_field (T : Tables) (hv : T.tablesValid = true) :
+    Nat.Prime T.F.p ∧ Irreducible (modulus T.F) ∧ IsField (AdjoinRoot (modulus T.F)) ∧
+    Nat.card (AdjoinRoot (modulus T.F)) = T.F.p ^ T.F.k ∧
+    Function.Bijective (fun i : Fin T.q => decA T.F (T.l2p i.val)) ∧
+    (∀ x : AdjoinRoot (modulus T.F), x ≠ 0 → ∃ i : Nat, 1 ≤ i ∧ i ≤ T.q - 1 ∧ x = decA T.F (T.l2p 1) ^ i) ∧
+    ZechHyp T.dom (T.q : Int) (decA T.F (T.l2p 1)) (fun i => decA T.F (T.l2p i.toNat)) :=
+  valid_implies_field_core T hv
+
+/-- **Refinement theorem**: `∀ tables, Valid tables → ∀ a b c, decode (op a b c) = decode a ⊙ decode b ⊙ decode c` for every
+    scalar operation of `GFqDom`, in the field `K = (ZMod p)[X] ⧸ (f)` of `valid_implies_field`, with canonical results;
+    inversion and division as `inv(b)·b = 1`, `div(a,b)·b = a` for `b ≠ 0`. -/
+theorem gfq_refinement (T : Tables) (hv : T.tablesValid = true) (a b c : Int)
+    (ha : Canon T.q a) (hb : Canon T.q b) (hc : Canon T.q c) :
+    let dec : Int → AdjoinRoot (modulus T.F) := fun i => decA T.F (T.l2p i.toNat)
+    (dec (T.dom.add a b) = dec a + dec b ∧ dec (T.dom.addin a b) = dec a + dec b ∧
+     dec (T.dom.sub a b) = dec a - dec b ∧ dec (T.dom.subin a b) = dec a - dec b ∧
+     dec (T.dom.mul a b) = dec a * dec b ∧ dec (T.dom.mulin a b) = dec a * dec b ∧
+     dec (T.dom.neg a) = - dec a ∧ dec (T.dom.negin a) = - dec a ∧
+     dec (T.dom.axpy a b c) = dec a * dec b + dec c ∧ dec (T.dom.axpyin c a b) = dec c + dec a * dec b ∧
+     dec (T.dom.maxpyin c a b) = dec c - dec a * dec b ∧ dec (T.dom.axmyin c a b) = dec a * dec b - dec c ∧
+     dec (T.dom.axmy a b c) = dec a * dec b - dec c ∧ dec (T.dom.maxpy a b c) = dec c - dec a * dec b) ∧
+    (b ≠ 0 → dec (T.dom.inv b) * dec b = 1 ∧ dec (T.dom.invin b) * dec b = 1 ∧
+             dec (T.dom.div a b) * dec b = dec a ∧ dec (T.dom.divin a b) * dec b = dec a) ∧
+    Canon T.q (T.dom.add a b) ∧ Canon T.q (T.dom.sub a b) ∧ Canon T.q (T.dom.mul a b) ∧ Canon T.q (T.dom.neg a) ∧
+    Canon T.q (T.dom.axpy a b c) ∧ Canon T.q (T.dom.axmy a b c) ∧ Canon T.q (T.dom.maxpy a b c) ∧
+    (b ≠ 0 → Canon T.q (T.dom.inv b) ∧ Canon T.q (T.dom.div a b)) := by
+  intro dec
+  have H := (valid_implies_field_core T hv).2.2.2.2.2.2
+  have h := zech_ops_correct H a b c ha hb hc
+  obtain ⟨h1, h2, h3, h4, h5, h6, h7, h8, h9, h10, h11, h12, h13, h14⟩ := h
+  refine ⟨⟨h3.1, h4.1, h5.1, h6.1, h1.1, h2.1, h7.1, h8.1, h9.1, h10.1, h11.1, h12.1, h13.1, h14.1⟩, ?_,
+    h3.2, h5.2, h1.2, h7.2, h9.2, h13.2, h14.2, ?_⟩
+  · intro hb0
+    have h2 := zech_inv_div_correct H a b ha hb hb0
+    exact ⟨h2.1.1, h2.2.1.1, h2.2.2.1.1, h2.2.2.2.1⟩
+  · intro hb0
+    have h2 := zech_inv_div_correct H a b ha hb hb0
+    exact ⟨h2.1.2.1, h2.2.2.1.2⟩
+
+/-- The abstract-field formulation: for every finite field `Fd` with `q` elements and every generator `g` of `Fdˣ`, if the
+    sentinels and the `plus1` table are those of `(Fd, g)` then `0 ↦ 0, i ↦ g^i` is a bijection from the canonical indices onto
+    `Fd` under which every scalar operation is exact. -/
+theorem zech_exact_for_field_generator {Fd : Type*} [Field Fd] [Fintype Fd] (D : Dom) (q : Nat)
+    (hq : Fintype.card Fd = q) (g : Fd) (hg : orderOf g = q - 1)
+    (hmun : D.mun = (q : Int) - 1) (hmo1 : 1 ≤ D.mo) (hmo2 : D.mo ≤ (q : Int) - 1) (hmo : g ^ D.mo.toNat = -1)
+    (hpl0 : ∀ i : Int, 1 ≤ i → i ≤ (q : Int) - 1 → g ^ i.toNat + 1 = 0 → D.pl i = 0)
+    (hpl1 : ∀ i : Int, 1 ≤ i → i ≤ (q : Int) - 1 → g ^ i.toNat + 1 ≠ 0 →
+      -((q : Int) - 1) < D.pl i ∧ D.pl i < 0 ∧ g ^ (D.pl i + ((q : Int) - 1)).toNat = g ^ i.toNat + 1)
+    (a b c : Int) (ha : Canon q a) (hb : Canon q b) (hc : Canon q c) :
+    let dec : Int → Fd := fun i => if i = 0 then 0 else g ^ i.toNat
+    Function.Bijective (fun i : Fin q => dec (i.val : Int)) ∧
+    dec (D.add a b) = dec a + dec b ∧ dec (D.sub a b) = dec a - dec b ∧ dec (D.mul a b) = dec a * dec b ∧
+    dec (D.neg a) = - dec a ∧ dec (D.axpy a b c) = dec a * dec b + dec c ∧ dec (D.axmy a b c) = dec a * dec b - dec c ∧
+    dec (D.maxpy a b c) = dec c - dec a * dec b ∧
+    (b ≠ 0 → dec (D.inv b) = (dec b)⁻¹ ∧ dec (D.div a b) = dec a / dec b) := by
+  intro dec
+  obtain ⟨H, hbij⟩ := zechHyp_of_field_generator D q hq g hg hmun hmo1 hmo2 hmo hpl0 hpl1
+  have h := zech_ops_correct H a b c ha hb hc
+  refine ⟨hbij, h.2.2.1.1, h.2.2.2.2.1.1, h.1.1, h.2.2.2.2.2.2.1.1, h.2.2.2.2.2.2.2.2.1.1,
+    h.2.2.2.2.2.2.2.2.2.2.2.2.1.1, h.2.2.2.2.2.2.2.2.2.2.2.2.2.1, ?_⟩
+  intro hb0
+  have h2 := zech_inv_div_correct H a b ha hb hb0
+  have hbne : dec b ≠ 0 := by
+    intro hz
+    have h3 : dec (D.inv b) * dec b = 1 := h2.1.1
+    rw [hz, mul_zero] at h3
+    exact zero_ne_one h3
+  constructor
+  · exact eq_inv_of_mul_eq_one_left h2.1.1
+  · rw [eq_div_iff hbne]; exact h2.2.2.1.1
+
+/-! ### construction_valid -/
+open Givaro.Model.GFqCtor in
+/-- **construction_valid** (every `k ≥ 1`): the table fill of the three constructors, as written (`Model/GFqCtor.lean`), yields
+    tables accepted by the checker — hence (`valid_implies_field`, `gfq_refinement`) a field in which every operation is exact —
+    for every prime `p`, every monic modulus `f` of degree `k` that is irreducible over `ZMod p` and every generator code
+    `g < p^k` whose class has multiplicative order `p^k - 1`.  The last two hypotheses are the contract of the search for the
+    irreducible / primitive polynomial (`ixe_irreducible`, `give_prim_root`: C09). -/
+theorem construction_valid (F : Field) (g : Nat) (hp : Nat.Prime F.p) (hk : 1 ≤ F.k) (hmon : F.k = 1 ∨ F.monic = true)
+    (hg : g < F.q) (hirr : Irreducible (modulus F)) (hord : orderOf (decA F g) = F.q - 1) :
+    (construct F g).tablesValid = true := by
+  haveI : Fact (Nat.Prime F.p) := ⟨hp⟩
+  haveI : Fact (Irreducible (modulus F)) := ⟨hirr⟩
+  exact construct_tablesValid F g hk hmon hg hord
+
+open Givaro.Model.GFqCtor in
+/-- **construction_valid for prime fields** (`k = 1`, every prime `p`): with `seed` the value returned by the primitive-root
+    search — any `seed < p` of multiplicative order `p - 1` modulo `p` (post-condition of `lowest_prim_root`, C13) — the loop
+    `accu = accu * seed % P` and the two table loops produce valid tables; no assumption on `_irred` (left unset by the code). -/
+theorem construction_valid_prime (p seed irred : Nat) (hp : Nat.Prime p) (hs : seed < p)
+    (hord : orderOf ((seed : Nat) : ZMod p) = p - 1) :
+    (construct { p := p, k := 1, irred := irred } seed).tablesValid = true := by
+  haveI : Fact (Nat.Prime ({ p := p, k := 1, irred := irred } : Field).p) := ⟨hp⟩
+  have hq : ({ p := p, k := 1, irred := irred } : Field).q = p := by simp [Field.q]
+  apply construction_valid _ seed hp (le_refl _) (Or.inl rfl) (by rw [hq]; exact hs)
+    (modulus_irreducible_k1 _ rfl)
+  rw [orderOf_decA_k1 _ rfl, hq]; exact hord
+
+open Givaro.Model.GFqCtor in
+/-- **The prime-field constructor end to end** (every prime `p`): the generator search `lowest_prim_root` as written, fed with
+    `phi(p) = p - 1` and the list `Lf` of the prime factors of `p - 1` (contract of the totient / factorisation routines, C13/C12),
+    followed by the table fill as written, yields valid tables. -/
+theorem prime_field_constructor_valid (p irred : Nat) (hp : Nat.Prime p) (Lf : List Nat)
+    (hLf : ∀ r, r ∈ Lf ↔ r.Prime ∧ r ∣ p - 1) :
+    (construct { p := p, k := 1, irred := irred } (lowestPrimRoot p (p - 1) Lf)).tablesValid = true := by
+  obtain ⟨_, h2, h3⟩ := lowestPrimRoot_post p hp Lf hLf
+  exact construction_valid_prime p _ irred hp h2 h3
+
+/-- post-condition of the generator search alone -/
+theorem lowest_prim_root_post (p : Nat) (hp : Nat.Prime p) (Lf : List Nat) (hLf : ∀ r, r ∈ Lf ↔ r.Prime ∧ r ∣ p - 1) :
+    0 < Givaro.Model.GFqCtor.lowestPrimRoot p (p - 1) Lf ∧ Givaro.Model.GFqCtor.lowestPrimRoot p (p - 1) Lf < p ∧
+    orderOf ((Givaro.Model.GFqCtor.lowestPrimRoot p (p - 1) Lf : Nat) : ZMod p) = p - 1 :=
+  lowestPrimRoot_post p hp Lf hLf
+
+/-- non-vacuity: for `p = 7` the factor list `[2, 3]` satisfies the contract and the search returns 3 -/
+example : Givaro.Model.GFqCtor.lowestPrimRoot 7 6 [2, 3] = 3 := by decide
+
+/-- non-vacuity of the hypotheses: 2 has order 2 modulo 3 -/
+example : orderOf ((2 : Nat) : ZMod 3) = 3 - 1 := by
+  rw [orderOf_eq_iff (by decide)]
+  refine ⟨by decide, ?_⟩
+  intro m hm hm0
+  have : m = 1 := by omega
+  subst this; decide
+
 /-- non-vacuity: the tables of GF(3) as the library builds them (γ = 2) are accepted -/
 example : ({ F := { p := 3, k := 1, irred := 0 }, mOne := 1, log2pol := #[0, 2, 1], pol2log := #[0, 2, 1],
              plus1 := #[0, 0, -1] } : Tables).tablesValid = true := by decide +kernel
@@ -423,6 +568,118 @@ example : WordFits wrapS32 2147483647 demoDom :=
     (by intro i; show -2 ≤ (if i = 2 then -1 else 0 : Int); split <;> omega)
     (by intro i; show (if i = 2 then -1 else 0 : Int) ≤ 0; split <;> omega)
 end word
+
+/-! ### the polynomial-quotient extension `Extension<BaseField>` -/
+section extension
+open Givaro.Model.GFqExtension Givaro.Lemmas.GFqExtension Polynomial
+
+/-- **Extension<> is `R[X] ⧸ (f)`**: for every base field `R`, every stored polynomial type `E` with interpretation `val : E → R[X]`
+    under which the `Poly1Dom` operations satisfy their C08 laws, every irreducible stored modulus `f = val _irred` (any degree)
+    and all operands: each member function of `Extension` as written returns a polynomial whose class is the field operation on the
+    classes of its operands — `inv(a)·a = 1`, `div(a,b)·b = a` for `b ≢ 0` — and which is reduced (`deg < deg f`) whenever the
+    operands that are merely added are; reduced polynomials are in bijection with `R[X] ⧸ (f)`. -/
+theorem extension_ops_exact {E : Type} {R : Type*} [_root_.Field R] (X : Ext E) (val : E → R[X]) (L : PolyLaws X.pD val)
+    [Fact (Irreducible (val X.irred))] (a b c : E) :
+    (cls X val (X.add a b) = cls X val a + cls X val b ∧ cls X val (X.sub a b) = cls X val a - cls X val b ∧
+     cls X val (X.neg a) = - cls X val a ∧ cls X val (X.mul a b) = cls X val a * cls X val b ∧
+     cls X val (X.axpy a b c) = cls X val a * cls X val b + cls X val c ∧
+     cls X val (X.axmy a b c) = cls X val a * cls X val b - cls X val c ∧
+     cls X val (X.maxpy a b c) = cls X val c - cls X val a * cls X val b ∧
+     cls X val (X.maxpyin c a b) = cls X val c - cls X val a * cls X val b ∧
+     cls X val (X.axmyin c a b) = cls X val a * cls X val b - cls X val c ∧
+     cls X val (X.axpyin c a b) = cls X val c + cls X val a * cls X val b ∧
+     cls X val (X.mulin a b) = cls X val a * cls X val b) ∧
+    (cls X val b ≠ 0 → cls X val (X.inv b) * cls X val b = 1 ∧ cls X val (X.invin b) * cls X val b = 1 ∧
+       cls X val (X.div a b) * cls X val b = cls X val a ∧ cls X val (X.divin a b) * cls X val b = cls X val a ∧
+       Reduced X val (X.inv b) ∧ Reduced X val (X.div a b) ∧ Reduced X val (X.divin a b)) ∧
+    (Reduced X val (X.mul a b) ∧ Reduced X val (X.maxpy a b c) ∧ Reduced X val (X.maxpyin c a b) ∧
+     Reduced X val (X.axmyin c a b) ∧ Reduced X val (X.axpyin c a b)) ∧
+    (Reduced X val a → Reduced X val b → Reduced X val (X.add a b) ∧ Reduced X val (X.sub a b) ∧ Reduced X val (X.neg a)) ∧
+    (Reduced X val c → Reduced X val (X.axpy a b c) ∧ Reduced X val (X.axmy a b c)) := by
+  refine ⟨⟨(add_exact X val L a b).1, (sub_exact X val L a b).1, (neg_exact X val L a).1, (mul_exact X val L a b).1,
+    (axpy_exact X val L a b c).1, (axmy_exact X val L a b c).1, (maxpy_exact X val L a b c).1, (maxpyin_exact X val L c a b).1,
+    (axmyin_exact X val L c a b).1, (axpyin_exact X val L c a b).1, (mul_exact X val L a b).1⟩, ?_,
+    ⟨(mul_exact X val L a b).2, (maxpy_exact X val L a b c).2, (maxpyin_exact X val L c a b).2, (axmyin_exact X val L c a b).2,
+     (axpyin_exact X val L c a b).2⟩, ?_, ?_⟩
+  · intro hb
+    exact ⟨(inv_exact X val L b hb).1, (inv_exact X val L b hb).1, (div_exact X val L a b hb).1, (divin_exact X val L a b hb).1,
+      (inv_exact X val L b hb).2, (div_exact X val L a b hb).2, (divin_exact X val L a b hb).2⟩
+  · intro ha hb
+    exact ⟨(add_exact X val L a b).2 ha hb, (sub_exact X val L a b).2 ha hb, (neg_exact X val L a).2 ha⟩
+  · intro hc
+    exact ⟨(axpy_exact X val L a b c).2 hc, (axmy_exact X val L a b c).2 hc⟩
+
+/-- elements ↔ classes: `mk` is injective on reduced polynomials and every class has a reduced representative -/
+theorem extension_reduced_bijection {E : Type} {R : Type*} [_root_.Field R] (X : Ext E) (val : E → R[X])
+    [Fact (Irreducible (val X.irred))] :
+    (∀ g h : R[X], g.degree < (val X.irred).degree → h.degree < (val X.irred).degree →
+      AdjoinRoot.mk (val X.irred) g = AdjoinRoot.mk (val X.irred) h → g = h) ∧
+    (∀ y : AdjoinRoot (val X.irred), ∃ g : R[X], g.degree < (val X.irred).degree ∧ AdjoinRoot.mk (val X.irred) g = y) :=
+  reduced_bijection X val
+
+/-- non-vacuity of `PolyLaws`: `E = ℚ[X]` itself with the Euclidean operations satisfies them -/
+example : PolyLaws (refOps ℚ) (id : ℚ[X] → ℚ[X]) := refOps_laws ℚ
+end extension
+
+/-! ### init from a polynomial over the prime field -/
+open Givaro.Spec.GFq Givaro.Model.GFqInit in
+/-- **`GFqDom::init(Rep&, const Vector&)`**: for valid tables, any commutative ring `K` with `p = 0` containing a root `x` of the
+    defining polynomial, `Pdom.mod(·, Irreducible)` taken by its C08 law, and every coefficient vector `cs` (entries `< p`, any
+    length and degree — below, equal to, above `k` — stored leading zeros allowed): the call stays inside `_pol2log` and returns the
+    canonical index whose polynomial, evaluated at `x`, is `Σ c_i x^i` (i.e. the element `P mod f` under the bijection). -/
+theorem init_from_polynomial_exact {K : Type*} [CommRing K] (x : K) (T : Tables) (hv : T.tablesValid = true)
+    (hp0 : ((T.F.p : Nat) : K) = 0) (modF : List Nat → List Nat)
+    (hmod : ∀ cs, (modF cs).length = T.F.k ∧ (∀ d ∈ modF cs, d < T.F.p) ∧ ev x (modF cs) = ev x cs)
+    (cs : List Nat) (hcs : ∀ c ∈ cs, c < T.F.p) :
+    ∃ r, initVec T modF cs = some r ∧ r < T.q ∧ ev x (digits T.F.p T.F.k (T.l2p r)) = ev x cs :=
+  initVec_exact x T hv hp0 modF hmod cs hcs
+
+/-! ### GFqKronecker: state machine and Kronecker substitution -/
+section kronecker
+open Givaro.Model.GFqKron Givaro.Lemmas.GFqKron
+
+/-- Every state reachable from the constructor by **any** sequence of `setShift` / `setMaxn` keeps the invariant
+    `base = 2^shift`, `mask = 2^shift - 1`, `maxn · e(p-1)² < 2^shift` (and `p`, `e` unchanged). -/
+theorem kronecker_state_invariant (p k : Nat) (ops : List Op) :
+    Inv (run (ctor p k) ops) ∧ (run (ctor p k) ops).p = p ∧ (run (ctor p k) ops).k = k :=
+  ⟨inv_run p k ops, run_pk p k ops⟩
+
+/-- **decode ∘ (sum of ≤ maxn integer products) ∘ encode is the dot product of the field**, for every reachable state:
+    for elements given by coefficient lists of length `k` with entries `< p`, in every commutative ring with `p = 0` and at
+    every point `x` (in particular a root of the defining polynomial: the class in `F_p[X]/(f)`), the polynomial that `init`
+    unpacks from `Σ_t convert(a_t)·convert(b_t)` evaluates to `Σ_t a_t(x)·b_t(x)`.  One term: the field product. -/
+theorem kronecker_substitution_exact {K : Type*} [CommRing K] (x : K) (p k : Nat) (hk : 1 ≤ k) (hp0 : ((p : Nat) : K) = 0)
+    (ops : List Op) (ts : List (List Nat × List Nat))
+    (hts : ∀ t ∈ ts, t.1.length = k ∧ t.2.length = k ∧ (∀ c ∈ t.1, c ≤ p - 1) ∧ (∀ c ∈ t.2, c ≤ p - 1))
+    (hn : ts.length ≤ (run (ctor p k) ops).maxn) :
+    ev x (unpack (run (ctor p k) ops) (accInt (run (ctor p k) ops) ts)) = dotK x ts := by
+  obtain ⟨hI, e1, e2⟩ := kronecker_state_invariant p k ops
+  apply kronecker_dot x _ hI (by rw [e2]; exact hk) (by rw [e1]; exact hp0) ts _ hn
+  intro t ht
+  rw [e1, e2]
+  exact hts t ht
+
+/-- `convert` is injective on elements (coefficient lists of the same length with entries below the digit base). -/
+theorem kronecker_convert_injective (s : KState) (a b : List Nat) (hl : a.length = b.length)
+    (ha : ∀ c ∈ a, c < 2 ^ s.shift) (hb : ∀ c ∈ b, c < 2 ^ s.shift) (h : convert s a = convert s b) : a = b := by
+  apply List.ext_getElem hl
+  intro i h1 h2
+  have e1 := digit_extract s.shift a ha i
+  have e2 := digit_extract s.shift b hb i
+  rw [← convert_eq, h, convert_eq, e2] at e1
+  simpa [List.getD_eq_getElem?_getD, h1, h2] using e1.symm
+
+/-- Pinned tree (before repair C05_4): `setMaxn` stopped growing the base at `base ≥ m`, so the room condition of the
+    invariant was *not* guaranteed — GF(2²), `setMaxn(1)`: base 2 = 1·e(p-1)², the middle coefficient of `(1+X)²` overflows. -/
+theorem kronecker_pinned_counterexample :
+    ¬ (∀ (p k n : Nat), (setMaxnPinned (ctor p k) n).maxn * epmunsq p k < 2 ^ (setMaxnPinned (ctor p k) n).shift) := by
+  intro h
+  have := h 2 2 1
+  revert this
+  decide
+
+example : (run (ctor 3 2) [.maxn 5, .shift 9]).maxn = 63 := by decide
+end kronecker
 
 /-! ### GFqExt: the "defensive" q-adic init (known finding C05-gfqext-defensive-init) -/
 section gfqext
